@@ -22,7 +22,9 @@ Fixpoint set (c : conns) (k v : Z) : conns :=
 Inductive op :=
 | Arrive (tok amount : Z)                 (* ServeHTTP entry: acquire *)
 | Finish (tok amount : Z) (panicked : bool) (* the deferred release, on return or on panic *)
-| BadSource.                              (* the extractor failed: no acquire, 500 *)
+| BadSource                               (* the extractor failed: no acquire, 500 *)
+| Burst (tok k : Z).                      (* k requests of one source arriving together, all held inside the handler
+                                             until every one of them has been admitted or rejected, then all finished *)
 
 Record st := { cs : conns; total : Z }.
 Definition init : st := {| cs := []; total := 0 |}.
@@ -35,7 +37,7 @@ Definition release (s : st) (t a : Z) : st :=
   {| cs := set (cs s) t (get (cs s) t - a); total := total s - a |}.
 
 (* observables: Arrive -> [status; connections of the source as seen by the admitted handler];
-   Finish -> []; BadSource -> [500] *)
+   Finish -> []; BadSource -> [500]; Burst -> [number admitted] *)
 Definition step (maxc : Z) (s : st) (o : op) : st * list Z :=
   match o with
   | Arrive t a =>
@@ -45,6 +47,7 @@ Definition step (maxc : Z) (s : st) (o : op) : st * list Z :=
       end
   | Finish t a _ => (release s t a, [])
   | BadSource => (s, [500])
+  | Burst t k => (s, [Z.min (Z.max 0 k) (Z.max 0 (maxc - get (cs s) t))])   (* number admitted; nothing stays in flight *)
   end.
 
 (* ---- integer encoding used by the correspondence harness ---- *)
@@ -52,6 +55,7 @@ Definition decode_op (l : list Z) : op :=
   match l with
   | [0; t; a] => Arrive t a
   | [1; t; a; p] => Finish t a (negb (p =? 0))
+  | [3; t; k] => Burst t k
   | _ => BadSource
   end.
 
